@@ -187,8 +187,40 @@ def read_dispatch(toks):
     return tuple_s, blob_s
 
 
+def check_derived_eq(toks):
+    """Origin, OpaqueOrigin (origin.rs) must take == from #[derive(PartialEq)] - the model's origin_eqb is the
+    structural equality - and nobody may write `impl PartialEq for` them by hand"""
+    ts = _texts(toks)
+    for name, kw in (("Origin", "enum"), ("OpaqueOrigin", "struct")):
+        i = find_seq(toks, ["pub", kw, name])
+        if i < 0:
+            raise TranslateError("pub %s %s not found" % (kw, name))
+        # the attribute list directly before: # [ derive ( ... ) ]
+        j = i - 1
+        if ts[j] != "]":
+            raise TranslateError("%s: no attribute before the declaration" % name)
+        k = j
+        while k >= 0 and ts[k] != "#":
+            k -= 1
+        attr = ts[k:j + 1]
+        if attr[:4] != ["#", "[", "derive", "("] or "PartialEq" not in attr or "Eq" not in attr:
+            raise TranslateError("%s: expected #[derive(.. PartialEq, Eq ..)], found %r" % (name, attr))
+        for tr in ("PartialEq", "Eq"):
+            if find_seq(toks, ["impl", tr, "for", name]) >= 0:
+                raise TranslateError("%s: hand-written impl %s" % (name, tr))
+    hi = find_seq(toks, ["pub", "enum", "Origin", "{"])
+    body = ts[hi + 4:match_close(toks, hi + 3)]
+    want = ["Opaque", "(", "OpaqueOrigin", ")", ",", "Tuple", "(", "String", ",", "Host", "<", "String", ">", ",", "u16", ")", ","]
+    if body != want:
+        raise TranslateError("enum Origin: unrecognised variants %r" % body)
+    si = find_seq(toks, ["pub", "struct", "OpaqueOrigin"])
+    if ts[si + 3:si + 7] != ["(", "usize", ")", ";"]:
+        raise TranslateError("struct OpaqueOrigin: expected (usize)")
+
+
 def extend(repo, V, J):
     toks = tokenize(read(repo, "url/src/origin.rs"))
+    check_derived_eq(toks)
     op = read_counter_op(toks)
     tuple_s, blob_s = read_dispatch(toks)
     V.append("(* ---- origins (url/src/origin.rs) ---- *)")
